@@ -202,8 +202,8 @@ theorem emitVia_ok {sp : Space} {f : Pos → Bool} {s s' : PopSt} {idx : Nat} {q
 
 /-- the repaired position of `move_climb` is a feasible position of the space -/
 theorem moveClimb_good {g : Geo} {sp : Space} {f : Pos → Bool} (hgeo : g = sp.geo) (hsp : SpaceOK sp)
-    {loc : Option Pos} {e : Option Rat} {tape rest : Tape} {q : Pos} (ht : TapeOK sp f tape)
-    (h : moveClimb g loc e tape = .ok (q, rest)) : rest <:+ tape ∧ InSpace sp q ∧ f q = true := by
+    {loc : Option Pos} {e : Option Rat} {fuel : Nat} {tape rest : Tape} {q : Pos} (ht : TapeOK sp f tape)
+    (h : moveClimb g loc e fuel tape = .ok (q, rest)) : rest <:+ tape ∧ InSpace sp q ∧ f q = true := by
   obtain ⟨a, b, c⟩ := moveClimb_spec h
   refine ⟨a, ?_, (ht.feas q true b).symm⟩
   cases c with
@@ -287,7 +287,7 @@ theorem esCross_ok {cfg : ESCfg} {sp : Space} {f : Pos → Bool} (hgeo : cfg.mem
                     have := ht.feas pos ok (hst2.subset (by rw [e3]; simp)); rw [← this]; exact hok
                   exact emitVia_ok hst3 hposin hfe h
                 · simp only [hok, Bool.false_eq_true, if_false] at h
-                  cases h4 : moveClimb cfg.member.geo (some pos) (some 1) t3 with
+                  cases h4 : moveClimb cfg.member.geo (some pos) (some 1) s.tape.length t3 with
                   | error e => rw [h4] at h; simp at h
                   | ok x4 =>
                     obtain ⟨q, t4⟩ := x4
@@ -369,7 +369,7 @@ theorem constraintLoop_spec {g : Geo} {sp : Space} {f : Pos → Bool} (hgeo : g 
         refine ⟨hs1, hp, ?_⟩
         have := ht.feas p ok (by rw [e1]; simp); rw [← this]; exact hok
       · simp only [hok, Bool.false_eq_true, if_false] at h
-        cases h2 : moveClimb g (some p) (some eps) t1 with
+        cases h2 : moveClimb g (some p) (some eps) n t1 with
         | error e => rw [h2] at h; simp at h
         | ok x2 =>
           obtain ⟨q2, t2⟩ := x2
